@@ -1,66 +1,40 @@
 /-
 C06, stage 2 — executable arithmetic of GF(2^m) = GF(2)[x]/(p(x)) on naturals (bit i = coefficient
 of x^i), as an instance of `Fld Nat`, for the driver's run of the `ec2.c` programs.
-`gf2Add = gf2Sub = xor`, `gf2Neg = id`; multiplication is carry-less multiplication followed by
-reduction; inversion by the extended Euclidean algorithm on polynomials.  No Mathlib.
-That this record is the arithmetic of a field of characteristic 2 (p irreducible) is NOT proved here
-(the theorems about ec2.c are stated for an arbitrary field of characteristic 2, `Spec2.lean`);
-it is tied to `gf2.c` by the differential run only.
+`gf2Add = gf2Sub = xor`, `gf2Neg = id`; multiplication and inversion are the C05 area's value-level
+functions `C05.gfMul md a b = pmod (clmul a b) md` (carry-less product, polynomial remainder) and
+`C05.ppInvModV a md` (the model of `ppInvMod`, which `gf2Inv` calls) — imported read-only, so that the
+C05 result "irreducible modulus ⇒ these operations are the arithmetic of a field" discharges the
+hypothesis of `ecMulA_gf2_partial` (PropsTop2.lean) directly.  No Mathlib.
+That this record is the arithmetic of a field of characteristic 2 is NOT proved in C06 (the theorems about
+ec2.c are stated for an arbitrary field of characteristic 2, `Spec2.lean`); here it is tied to `gf2.c` by the
+differential run.
 -/
 import Bee2V.C06.Core
+import Bee2V.C05.ModelGf2
 namespace Bee2V.C06
 
 /-- degree + 1 -/
 def plen (a : Nat) : Nat := if a = 0 then 0 else a.log2 + 1
 
-/-- remainder of `r` modulo `md` (`plen md = m + 1`) as polynomials over GF(2) -/
-def pmod (md m : Nat) : Nat → Nat → Nat
-  | 0, r => r
-  | fuel + 1, r => if plen r ≤ m then r else pmod md m fuel (r ^^^ (md <<< (plen r - 1 - m)))
-
-/-- carry-less product -/
-def clmul : Nat → Nat → Nat → Nat → Nat
-  | 0, _, _, acc => acc
-  | fuel + 1, a, b, acc =>
-    if b = 0 then acc else clmul fuel (a <<< 1) (b >>> 1) (if b % 2 = 1 then acc ^^^ a else acc)
-
-def gf2mul (md m a b : Nat) : Nat :=
-  let r := clmul (plen b + 1) a b 0
-  pmod md m (plen r + 1) r
-
-/-- extended Euclid: invariant `g1 * a ≡ u`, `g2 * a ≡ v (mod md)`; returns `a⁻¹` (0 for 0) -/
-def pinvLoop (md m : Nat) : Nat → Nat → Nat → Nat → Nat → Nat
-  | 0, _, _, g1, _ => g1
-  | fuel + 1, u, v, g1, g2 =>
-    if u ≤ 1 then g1 else
-    if plen u < plen v then pinvLoop md m fuel v u g2 g1
-    else
-      let j := plen u - plen v
-      pinvLoop md m fuel (u ^^^ (v <<< j)) v (g1 ^^^ (g2 <<< j)) g2
-
-def gf2inv (md m a : Nat) : Nat :=
-  if a = 0 then 0 else
-  let g := pinvLoop md m (4 * m + 8) a md 1 0
-  pmod md m (plen g + 1) g
-
-def gf2pow (md m a : Nat) : Nat → Nat → Nat → Nat
+def gf2pow (md a : Nat) : Nat → Nat → Nat → Nat
   | 0, _, acc => acc
   | fuel + 1, e, acc =>
     if e = 0 then acc else
-    gf2pow md m (gf2mul md m a a) fuel (e / 2) (if e % 2 = 1 then gf2mul md m acc a else acc)
+    gf2pow md (C05.gfMul md a a) fuel (e / 2) (if e % 2 = 1 then C05.gfMul md acc a else acc)
 
-/-- GF(2^m) with modulus polynomial `md` (bit m set) -/
-def gf2Fld (md m : Nat) : Fld Nat where
+/-- GF(2^m) with modulus polynomial `md` (bit m set); `m` is kept for the callers' range tests -/
+def gf2Fld (md _m : Nat) : Fld Nat where
   zero := 0
   one := 1
   add a b := a ^^^ b
   sub a b := a ^^^ b
-  mul a b := gf2mul md m a b
+  mul a b := C05.gfMul md a b
   neg a := a
   dbl _ := 0
   half _ := 0
-  inv a := gf2inv md m a
-  pow a e := gf2pow md m a (plen e + 1) e 1
+  inv a := C05.ppInvModV a md
+  pow a e := gf2pow md a (plen e + 1) e 1
   eqb a b := a == b
 
 end Bee2V.C06
